@@ -100,7 +100,12 @@ def buildPrograms (n : Nat) (evs : List Ev) :
               match base.find? (fun p => p.1 == l) with
               | some (_, v0) =>
                   if v0 != v then
-                    return .error s!"base value of location {l} changed between reads ({v0} vs {v}): monitored assumption 7"
+                    -- The model reads the block-start value atomically with the MV lookup. The code
+                    -- looks up the MV memory and, on a miss, reads the committed cache LATER: a
+                    -- commit in between makes that read return a committed value with origin
+                    -- `Storage` (the attempt is then refuted by validation). Such runs are outside
+                    -- the model's action set: skipped and counted, not replayed.
+                    return .error s!"racy-base-read location {l} ({v0} vs {v})"
               | none => base := (l, v) :: base
         | none => pure ()
     | "mv_publish_val" =>
@@ -334,7 +339,7 @@ def replaySched (n : Nat) (lines : List String) : String := Id.run do
   if evs.any (fun e => e.site == "hist_read") then
     return "skip beneficiary-read"
   match buildPrograms n evs with
-  | .error e => return s!"diverge 0 {e}"
+  | .error e => return (if e.startsWith "racy-base-read" then s!"skip {e}" else s!"diverge 0 {e}")
   | .ok (trees, base) =>
       let P : Params :=
         { n := n, txs := fun i => (trees.getD i .unknown).toProg,
